@@ -1505,3 +1505,185 @@ Proof.
   intro H. assert (Hm : 0 < m) by (unfold index in H; destruct ((0 <? m) && (0 <=? P)) eqn:G; [lia|discriminate]).
   apply index_sound in H. now apply in_bucket_exact in H.
 Qed.
+
+(* ====================================================================== *)
+(** * Part F: the executable judge of exponential placement used on implementation output
+
+    The correspondence run cannot evaluate [in_bucketb] at positive scales (it would compute
+    m^(2^20)).  It certifies one scale-20 index per magnitude with [index] and shifts it down;
+    [placed_b] then compares tallies.  [placed_b_sound]: a positive verdict implies the
+    specification's [expo_placed]. *)
+
+Definition U : Z := -1074.
+Definition P1 : Z := 112.
+Definition P2 : Z := 320.
+
+(** Certified index at scale s >= 0 (retry with more precision before giving up). *)
+Definition index2 (s : nat) (m : Z) : option Z :=
+  match index P1 s m U with Some j => Some j | None => index P2 s m U end.
+
+(** Table of certified scale-20 indexes of the magnitudes of a case. *)
+Fixpoint idx_table (vs : list Z) : option (list (Z * Z)) :=
+  match vs with
+  | [] => Some []
+  | v :: r =>
+      match idx_table r with
+      | None => None
+      | Some t =>
+          if v =? 0 then Some t
+          else match index2 20 (Z.abs v) with Some j => Some ((Z.abs v, j) :: t) | None => None end
+      end
+  end.
+
+Fixpoint lookup (m : Z) (t : list (Z * Z)) : Z :=
+  match t with [] => 0 | (k, j) :: r => if k =? m then j else lookup m r end.
+
+(** The exact positive-scale index: the certified scale-20 index shifted down. *)
+Definition gb_of (t : list (Z * Z)) (s m : Z) : Z := Z.shiftr (lookup m t) (20 - s).
+
+Definition expo_table (mxs : Z) (vz : list Z) : option (list (Z * Z)) :=
+  if 0 <? mxs then idx_table vz else Some [].
+
+(** Exact bucket of a magnitude at the observed scale. *)
+Definition spec_bin (t : list (Z * Z)) (s m : Z) : Z :=
+  if s <=? 0 then exact_bin s m U else gb_of t s m.
+
+Definition tally_ok (t : list (Z * Z)) (s : Z) (mags : list Z) (off : Z) (counts : list N) : bool :=
+  (nsum counts =? N.of_nat (length mags))%N &&
+  forallb (fun k => let i := off + Z.of_nat k in
+                    N.eqb (nth k counts 0%N) (count_where (fun m => spec_bin t s m =? i) mags))
+          (nat_upto (length counts)).
+
+Definition placed_b (t : list (Z * Z)) (vz : list Z) (p : expo_point) : bool :=
+  (ep_zero p =? count_where (Z.eqb 0) vz)%N &&
+  tally_ok t (ep_scale p) (posl vz) (ep_pos_off p) (ep_pos p) &&
+  tally_ok t (ep_scale p) (negl vz) (ep_neg_off p) (ep_neg p).
+
+Lemma index2_exact s m j : index2 s m = Some j -> j = exact_bin (Z.of_nat s) m U.
+Proof.
+  unfold index2. destruct (index P1 s m U) eqn:E1.
+  - intro H; injection H as <-. now apply index_exact in E1.
+  - intro H. now apply index_exact in H.
+Qed.
+
+Lemma idx_table_lookup vs t : idx_table vs = Some t ->
+  forall v, In v vs -> v <> 0 -> lookup (Z.abs v) t = exact_bin 20 (Z.abs v) U.
+Proof.
+  revert t; induction vs as [|w r IH]; intros t Ht v Hin Hv; [destruct Hin|].
+  cbn [idx_table] in Ht. destruct (idx_table r) as [t0|] eqn:Er; [|discriminate].
+  destruct (Z.eqb_spec w 0) as [Ew|Ew].
+  - injection Ht as <-. destruct Hin as [->|Hin]; [contradiction|]. now apply IH.
+  - destruct (index2 20 (Z.abs w)) as [j|] eqn:Ej; [|discriminate]. injection Ht as <-.
+    apply index2_exact in Ej. change (Z.of_nat 20) with 20 in Ej.
+    cbn [lookup]. destruct (Z.eqb_spec (Z.abs w) (Z.abs v)) as [Eq|Ne].
+    + rewrite <- Eq. exact Ej.
+    + destruct Hin as [->|Hin]; [contradiction|]. now apply IH.
+Qed.
+
+Lemma spec_bin_exact mxs vz t s v :
+  mxs <= 20 -> expo_table mxs vz = Some t -> s <= mxs -> In v vz -> v <> 0 ->
+  spec_bin t s (Z.abs v) = exact_bin s (Z.abs v) U.
+Proof.
+  intros Hmx Ht Hs Hin Hv. unfold spec_bin. destruct (Z.leb_spec s 0) as [H0|H0]; [reflexivity|].
+  unfold expo_table in Ht. destruct (Z.ltb_spec 0 mxs); [|lia].
+  unfold gb_of. rewrite (idx_table_lookup vz t Ht v Hin Hv).
+  rewrite <- exact_bin_shift by lia. f_equal. lia.
+Qed.
+
+Lemma filter_len_le {A} (p : A -> bool) l : (length (filter p l) <= length l)%nat.
+Proof. induction l as [|y l IH]; cbn [filter length]; [lia|]. destruct (p y); cbn [length]; lia. Qed.
+
+Lemma count_where_all {A} (p : A -> bool) l :
+  count_where p l = N.of_nat (length l) -> forall x, In x l -> p x = true.
+Proof.
+  unfold count_where. induction l as [|y l IH]; intros H x Hin; [destruct Hin|].
+  cbn [filter length] in H. pose proof (filter_len_le p l) as Hle.
+  destruct (p y) eqn:Ey; cbn [length] in H.
+  - destruct Hin as [->|Hin]; [exact Ey|]. apply IH; [lia|exact Hin].
+  - lia.
+Qed.
+
+Lemma count_where_none {A} (p : A -> bool) l :
+  (forall x, In x l -> p x = false) -> count_where p l = 0%N.
+Proof.
+  induction l as [|y l IH]; intro H; [reflexivity|].
+  rewrite count_where_cons, (H y (or_introl eq_refl)), IH; [reflexivity|].
+  intros x Hx. apply H. now right.
+Qed.
+
+Lemma count_where_disj {A} (p q r : A -> bool) l :
+  (forall x, r x = (p x || q x) /\ (p x && q x = false)) ->
+  count_where r l = (count_where p l + count_where q l)%N.
+Proof.
+  intro H. induction l as [|x l IH]; [reflexivity|]. rewrite !count_where_cons, IH.
+  destruct (H x) as [E1 E2]. rewrite E1. destruct (p x), (q x); cbn [orb andb] in *; try congruence; lia.
+Qed.
+
+(** Sum of the tallies of a window = number of elements whose bin lies in the window. *)
+Lemma window_tally {A} (f : A -> Z) (l : list A) off n :
+  nsum (map (fun k => count_where (fun m => f m =? off + Z.of_nat k) l) (nat_upto n)) =
+  count_where (fun m => (off <=? f m) && (f m <? off + Z.of_nat n)) l.
+Proof.
+  induction n as [|n IH].
+  - cbn [nat_upto map nsum fold_right]. symmetry. apply count_where_none. intros x _. lia.
+  - cbn [nat_upto]. rewrite map_app, nsum_app, IH. cbn [map nsum fold_right]. rewrite N.add_0_r.
+    symmetry. apply count_where_disj. intro x. cbv beta.
+    destruct (Z.leb_spec off (f x)), (Z.ltb_spec (f x) (off + Z.of_nat n)),
+      (Z.ltb_spec (f x) (off + Z.of_nat (S n))), (Z.eqb_spec (f x) (off + Z.of_nat n));
+      cbn [andb orb]; split; (reflexivity || lia).
+Qed.
+
+Lemma nsum_nth l : nsum (map (fun k => nth k l 0%N) (nat_upto (length l))) = nsum l.
+Proof.
+  induction l as [|x l IH] using rev_ind; [reflexivity|].
+  rewrite app_length. cbn [length]. replace (length l + 1)%nat with (S (length l)) by lia.
+  cbn [nat_upto]. rewrite map_app, !nsum_app. cbn [map nsum fold_right].
+  rewrite app_nth2, Nat.sub_diag by lia. cbn [nth]. f_equal.
+  rewrite <- IH. f_equal. apply map_ext_in. intros k Hk. apply nat_upto_in in Hk.
+  now rewrite app_nth1 by lia.
+Qed.
+
+Lemma tally_ok_sound t s mags off counts :
+  (forall m, In m mags -> spec_bin t s m = exact_bin s m U) ->
+  tally_ok t s mags off counts = true ->
+  forall i, bucket_get off counts i = count_where (fun m => exact_bin s m U =? i) mags.
+Proof.
+  intros Hsb H. unfold tally_ok in H. apply andb_true_iff in H as [Hsum Hall].
+  apply N.eqb_eq in Hsum. rewrite forallb_forall in Hall.
+  set (f := fun m => exact_bin s m U).
+  assert (Hk : forall k, (k < length counts)%nat ->
+             nth k counts 0%N = count_where (fun m => f m =? off + Z.of_nat k) mags).
+  { intros k Hlt. specialize (Hall k ltac:(apply nat_upto_in; exact Hlt)). cbv zeta in Hall.
+    apply N.eqb_eq in Hall. rewrite Hall. apply count_where_ext. intros m Hm. now rewrite Hsb. }
+  assert (Hin : forall m, In m mags -> (off <=? f m) && (f m <? off + Z.of_nat (length counts)) = true).
+  { apply count_where_all. rewrite <- window_tally, <- Hsum. rewrite <- (nsum_nth counts). f_equal.
+    apply map_ext_in. intros k Hlt. apply nat_upto_in in Hlt. symmetry. now apply Hk. }
+  intro i. unfold bucket_get. destruct (Z.ltb_spec i off) as [Hlo|Hlo].
+  - symmetry. apply count_where_none. intros m Hm. specialize (Hin m Hm). fold (f m). lia.
+  - destruct (Nat.ltb_spec (Z.to_nat (i - off)) (length counts)) as [Hlt|Hge].
+    + rewrite Hk by exact Hlt. apply count_where_ext. intros m _. fold (f m).
+      replace (off + Z.of_nat (Z.to_nat (i - off))) with i by lia. reflexivity.
+    + rewrite nth_overflow by lia. symmetry. apply count_where_none. intros m Hm.
+      specialize (Hin m Hm). fold (f m). lia.
+Qed.
+
+(** A positive verdict of the executable judge implies the specification's placement clause. *)
+Lemma placed_b_sound mxs vz t p :
+  mxs <= 20 -> expo_table mxs vz = Some t -> ep_scale p <= mxs ->
+  placed_b t vz p = true -> expo_placed U vz p.
+Proof.
+  intros Hmx Ht Hs H. unfold placed_b in H. apply andb_true_iff in H as [H Hneg].
+  apply andb_true_iff in H as [Hz Hpos]. apply N.eqb_eq in Hz.
+  assert (Sp : forall m, In m (posl vz) -> spec_bin t (ep_scale p) m = exact_bin (ep_scale p) m U).
+  { intros m Hm. apply posl_in in Hm as [Hin H0]. rewrite <- (Z.abs_eq m) by lia.
+    eapply spec_bin_exact; eauto; lia. }
+  assert (Sn : forall m, In m (negl vz) -> spec_bin t (ep_scale p) m = exact_bin (ep_scale p) m U).
+  { intros m Hm. apply negl_in in Hm as [Hin H0]. replace m with (Z.abs (- m)) by lia.
+    eapply spec_bin_exact; eauto; lia. }
+  pose proof (tally_ok_sound _ _ _ _ _ Sp Hpos) as Tp.
+  pose proof (tally_ok_sound _ _ _ _ _ Sn Hneg) as Tn.
+  split; [exact Hz|]. intro i. rewrite Tp, Tn. unfold posl, negl.
+  rewrite count_where_map, !count_where_filter. split; apply count_where_ext; intros x _; cbv beta.
+  - destruct (Z.ltb_spec 0 x); cbn [andb]; [|reflexivity]. symmetry. apply in_bucketb_exact; lia.
+  - destruct (Z.ltb_spec x 0); cbn [andb]; [|reflexivity]. symmetry. apply in_bucketb_exact; lia.
+Qed.
